@@ -93,14 +93,18 @@ CASE_CPU_SECONDS = 60.0
 _tcache = {}
 
 
-def template(form, encoding=None):
-    key = (form, encoding)
+def template(form, encoding=None, pre=False):
+    key = (form, encoding, pre)
     t = _tcache.get(key)
     if t is None:
         import DocumentTemplate
         _, cls, src, _q = FORM_BY_ID[form]
         cls = getattr(DocumentTemplate, cls)
         t = cls(src, encoding=encoding) if encoding else cls(src)
+        if pre:
+            # this compiled template has inserted a tainted value before
+            from AccessControl.tainted import TaintedString
+            t(x=TaintedString('<pre&>'), c='word', two=[1, 2], t=tainted())
         _tcache[key] = t
     return t
 
@@ -257,9 +261,10 @@ def judge(res, case, form, value, got, expected, enc=None):
             why = 'text'
         sig = 'escape:%s:%s%s' % (why, form, (':' + enc) if enc else '')
         detail = {'got': got, 'expected': expected}
+    base = form.split('@')[0]
     detail.update({'value': value, 'form': form, 'encoding': enc,
-                   'source': FORM_BY_ID[form][2]})
-    res.violate('escape' if FORM_BY_ID[form][3] else 'plain', sig, detail,
+                   'source': FORM_BY_ID[base][2]})
+    res.violate('escape' if FORM_BY_ID[base][3] else 'plain', sig, detail,
                 {'kind': 'one', 'form': form, 'value': value, 'enc': enc})
 
 
@@ -273,8 +278,8 @@ def tainted():
     return _tainted[0]
 
 
-def render(form, value, enc=None):
-    t = template(form, enc)
+def render(form, value, enc=None, pre=False):
+    t = template(form, enc, pre)
     try:
         return t(x=value, c='word', two=[1, 2], t=tainted())
     except Exception as e:       # CaseTimeout is a BaseException
@@ -291,6 +296,8 @@ def run(case):
     if case['kind'] == 'one':
         # replay form
         value, enc, form = case['value'], case.get('enc'), case['form']
+        pre = form.endswith('@after-tainted-render')
+        form = form.split('@')[0]
         quoting = FORM_BY_ID[form][3]
         esc = html.escape(value, True)
         exp = {'text-around': '[%s|%s]' % (esc, esc),
@@ -301,7 +308,8 @@ def run(case):
                'in-loop': ('word|' + esc + ',') * 2}.get(
                    form, esc if quoting else value)
         v = value.encode(enc) if enc else value
-        judge(res, case, form, value, render(form, v, enc), exp, enc)
+        judge(res, case, case['form'], value, render(form, v, enc, pre), exp,
+              enc)
         res.nontrivial = True
         return res
     nt = 0
@@ -338,6 +346,14 @@ def run(case):
             if 'null=' in _src and not value:
                 exp = 'N'       # null= replaces an empty value (C15)
             judge(res, case, form, value, got, exp, enc)
+            if quoting and case['kind'] in ('str', 'carrier'):
+                # the same on a template object that has rendered a
+                # tainted value before
+                got2 = render(form, raw, enc, pre=True)
+                n += 1
+                if got2 != exp and got == exp:
+                    judge(res, case, form + '@after-tainted-render', value,
+                          got2, exp, enc)
             if nv:
                 nt += 1
                 if res.sample is None:
